@@ -417,6 +417,16 @@ pub trait Prop: Sync {
     fn crash_type(&self) -> bool {
         false
     }
+    /// Signature of a process death on the given artefact (a predicate over the input may name
+    /// the root cause more narrowly than the signal).
+    fn crash_signature(&self, _artefact: &Value, why: &str) -> String {
+        format!("crash:{why}")
+    }
+    /// Properties whose cases may kill the process for reasons that are another property's
+    /// business (C15 runs C14's pipeline): the case is announced, stepped over and counted.
+    fn skip_crashes(&self) -> bool {
+        false
+    }
     fn worker(&self, ctx: &mut WorkerCtx);
     /// Re-judges a stored artefact directly (no generator, no proptest).
     fn replay(&self, artefact: &Value) -> Verdict;
@@ -680,7 +690,7 @@ pub fn check(prop: &dyn Prop, tier: Tier, seed: u64) -> i32 {
                 }
             }
             (ReplayOutcome::Crash(why), _) => {
-                let sig = format!("crash:{}", why);
+                let sig = prop.crash_signature(art, &why);
                 match known.matches(id, &sig) {
                     Some(kf) => {
                         out_lines.push(format!("KNOWN-FINDING: property={} {}", id, kf.what))
@@ -763,7 +773,7 @@ pub fn check(prop: &dyn Prop, tier: Tier, seed: u64) -> i32 {
                             let i = exact;
                             if repro == 2 && prop.crash_type() {
                                 let art = artefact.unwrap_or(json!({"shard":s,"idx":i}));
-                                let sig = format!("crash:{}", why_class(&why));
+                                let sig = prop.crash_signature(&art, &why_class(&why));
                                 if known.matches(prop.id(), &sig).is_none() {
                                     viols.push((
                                         sig,
@@ -771,6 +781,8 @@ pub fn check(prop: &dyn Prop, tier: Tier, seed: u64) -> i32 {
                                         art,
                                     ));
                                 }
+                            } else if prop.skip_crashes() {
+                                *agg.classes.entry("cases_skipped_after_process_death".to_string()).or_insert(0) += 1;
                             } else {
                                 inconc.push(format!(
                                     "worker died ({why}) on case {s}:{i}; reproduced {repro}/2{}",
@@ -987,14 +999,27 @@ pub fn replay_raw(prop: &dyn Prop) -> i32 {
     use std::io::Read;
     std::io::stdin().read_to_string(&mut s).expect("stdin");
     let art: Value = serde_json::from_str(&s).expect("artefact json");
-    let v = match panics::catch(|| prop.replay(&art)) {
-        Ok(v) => v,
-        Err(p) => Verdict::fail(
-            format!("harness-panic@{}", p.loc),
-            format!("uncaught panic at {}: {}", p.loc, p.msg),
-            art.clone(),
-        ),
-    };
+    // Same resource envelope as a worker: address-space limit and an 8 MiB stack.
+    let gib: u64 = std::env::var("VERIF_AS_GIB").ok().and_then(|s| s.parse().ok()).unwrap_or(16);
+    unsafe {
+        let lim = libc::rlimit { rlim_cur: gib << 30, rlim_max: gib << 30 };
+        libc::setrlimit(libc::RLIMIT_AS, &lim);
+    }
+    let v = std::thread::scope(|scope| {
+        std::thread::Builder::new()
+            .stack_size(8 << 20)
+            .spawn_scoped(scope, || match panics::catch(|| prop.replay(&art)) {
+                Ok(v) => v,
+                Err(p) => Verdict::fail(
+                    format!("harness-panic@{}", p.loc),
+                    format!("uncaught panic at {}: {}", p.loc, p.msg),
+                    art.clone(),
+                ),
+            })
+            .expect("spawn")
+            .join()
+            .unwrap_or(Verdict::Skip("replay thread died"))
+    });
     match v {
         Verdict::Pass => println!("{}", json!({"r":"pass"})),
         Verdict::Skip(w) => println!("{}", json!({"r":"skip","why":w})),
@@ -1038,7 +1063,7 @@ pub fn replay_file(prop: &dyn Prop, path: &str) -> i32 {
             1
         }
         ReplayOutcome::Crash(why) => {
-            let sig = format!("crash:{why}");
+            let sig = prop.crash_signature(&art, &why);
             if let Some(k) = known.matches(prop.id(), &sig) {
                 println!("KNOWN-FINDING: property={} {}", prop.id(), k.what);
                 return 0;
@@ -1096,7 +1121,7 @@ pub fn worker_main(prop: &dyn Prop, args: &[String]) -> i32 {
     }
     let known = KnownFindings::load(&verif_root().join("known_findings.json"));
     let n_shards = prop.n_shards(tier);
-    let announce = prop.crash_type();
+    let announce = prop.crash_type() || prop.skip_crashes();
     let prop_id = prop.id().to_string();
     // Run on a thread with the stack size of a Linux main thread (8 MiB), which is what the CLI
     // tools run on; a stack overflow kills the process and is attributed by the driver.
